@@ -192,6 +192,11 @@ fn try_to_find_node_by_xml_name_in_xml_doc<'n>(
     // iterate over all subsequent nodes in the XML tree to find the node with the given name
     for node in start_node.descendants() {
         if node.is_element() {
+            // a reference can only denote a global component: a direct child of a schema element
+            if !node.parent().is_some_and(|p| p.tag_name().name() == "schema") {
+                continue;
+            }
+
             // do a quick check on the name of the node, so we can skip the more expensive try_from_node
             if let Some(node_name) = node.attribute("name") {
                 let (node_name, _node_namespace) = resolve_type(node_name, doc);
